@@ -72,7 +72,7 @@ def main():
         # the existing suite with the patch but WITHOUT the demo
         clean()
         sh('git apply %s' % os.path.join(out, name + '.patch.diff'))
-        r = subprocess.run([sys.executable, os.path.join(V, 'tools', 'suite.py'), WT, '--fast'], capture_output=True, text=True,
+        r = subprocess.run([sys.executable, os.path.join(V, 'tools', 'suite.py'), WT, '--fast', '--retry'], capture_output=True, text=True,
                            env=dict(os.environ, CARGO_TARGET_DIR=WT + '/target', CARGO_NET_OFFLINE='true'))
         lines = r.stdout.strip().splitlines()
         rec['steps'].append({'suite_with_change': 'all baseline-stable tests pass' if r.returncode == 0 else 'SOME STABLE TESTS FAIL', 'tail': lines[-6:]})
